@@ -33,6 +33,7 @@ type hrun struct {
 	Bound     string // human-readable bound of this harness
 	NoNative  bool   // uses verifrt.StubFunc: cannot run natively
 	Sched     bool   // schedule-dependent: a native run cannot force the interleaving
+	MapOrder  bool   // explores map iteration orders (PermuteRanges): a native run draws a random one
 	NoWitness bool   // witness paths are not replayed natively (see the bound text)
 	Witnesses int    // number of witness paths replayed natively (default 3)
 }
@@ -204,8 +205,12 @@ func cmdCheck(args []string) int {
 				path = writeReplayFile(v, id, r.Pkg, nViol)
 			} else {
 				ok, path, detail = confirmViolation(v, id, r.Pkg, nViol)
+				for try := 0; !ok && r.MapOrder && try < 3; try++ {
+					// the native run iterates maps in a random order
+					ok, path, detail = confirmViolation(v, id, r.Pkg, nViol)
+				}
 			}
-			if !ok && (r.NoNative || r.Sched) {
+			if !ok && (r.NoNative || r.Sched || r.MapOrder) {
 				var d2 string
 				ok, d2 = engineReplay(P, r, v)
 				detail = strings.TrimSpace(detail + "; " + d2)
